@@ -224,9 +224,9 @@ func newRetryClient(sn *scriptedNet, legacy bool, cfg *mcp.RetryConfig) (*mcp.Cl
 }
 
 type e2eScript struct {
-	ID       string   `json:"id"`
-	Client   string   `json:"client"` // streamable | legacy
-	Retry    *struct {
+	ID     string `json:"id"`
+	Client string `json:"client"` // streamable | legacy
+	Retry  *struct {
 		Max       int     `json:"max"`
 		InitialMs float64 `json:"initial_ms"`
 		Factor    float64 `json:"factor"`
@@ -376,13 +376,13 @@ type clampIn struct {
 }
 
 type clampOut struct {
-	Retries  int     `json:"retries"`
-	Initial  float64 `json:"initial_us"`
-	Factor   float64 `json:"factor"`
-	FactorS  string  `json:"factor_s"`
-	Max      float64 `json:"max_us"`
-	Twice    bool    `json:"idempotent"`
-	ViaOpt   bool    `json:"via_option_equal"`
+	Retries int     `json:"retries"`
+	Initial float64 `json:"initial_us"`
+	Factor  float64 `json:"factor"`
+	FactorS string  `json:"factor_s"`
+	Max     float64 `json:"max_us"`
+	Twice   bool    `json:"idempotent"`
+	ViaOpt  bool    `json:"via_option_equal"`
 }
 
 func runClamp(c clampIn) clampOut {
